@@ -265,4 +265,165 @@ def cacheWrites (f : κ → ν) (cch : Cache κ ν) : List κ → Cache κ ν
   | [] => cch
   | x :: xs => cacheWrites f (cacheOutputs cch x (f x)) xs
 
+/-! ## 4. Successive `execute()` calls on one executor object
+
+`execute` creates its two queues *inside* the call (`queue.Queue()` / `manager.Queue()`,
+callable_parallel_execution.py l.268-276) and returns (or re-raises) only after every worker is
+joined.  The executor object keeps `workers`, `n_processes` and `exceptions_to_re_raise`; nothing
+else survives a call.  What a call *leaves behind* in its queues (results that were never read
+because a re-raised exception stopped the collector) is therefore unreachable for the next call. -/
+
+/-- State in which call `k+1` starts, given the final state `prev` of call `k`: fresh queues,
+    fresh workers, fresh `ordered_outputs`.  `prev` is an explicit argument so that the
+    independence from the leftovers of the previous call is a statement, not an omission. -/
+def nextCall (_prev : State β) (c' : Cfg α β) : State β := init c'
+
+/-- What the code does **not** do (a plausible "optimisation": keep the two queues on the
+    executor).  Only used for a counter-example in `Props/C13.lean`. -/
+def nextCallReusingQueues (prev : State β) (c' : Cfg α β) : State β :=
+  { init c' with queueIn := prev.queueIn, queueOut := prev.queueOut }
+
+/-- An executor object with its current call and the finished calls (most recent first). -/
+structure Sess (α β : Type) where
+  cfg : Cfg α β
+  st : State β
+  past : List (Cfg α β × State β)
+
+/-- A session transition: a pool transition of the current call, or a new `execute(inputs)` —
+    possible only when the current call has joined its workers (it returned or raised). -/
+inductive SOp (α : Type) where
+  | op (o : Op)
+  | call (inputs : List α)
+
+def sinit (c : Cfg α β) : Sess α β := { cfg := c, st := init c, past := [] }
+
+def sstep? (s : Sess α β) : SOp α → Option (Sess α β)
+  | .op o =>
+    match step? s.cfg s.st o with
+    | some st' => some { s with st := st' }
+    | none => none
+  | .call xs =>
+    if s.st.final then
+      let c' : Cfg α β := { s.cfg with inputs := xs }
+      some { cfg := c', st := nextCall s.st c', past := (s.cfg, s.st) :: s.past }
+    else none
+
+def srun? (s : Sess α β) : List (SOp α) → Option (Sess α β)
+  | [] => some s
+  | op :: ops =>
+    match sstep? s op with
+    | some s' => srun? s' ops
+    | none => none
+
+/-! ## 5. Shared full cache with outputs *and* Jacobians (`BaseFullCache`, tolerance 0)
+
+`cache_outputs` / `cache_jacobian` (base_full_cache.py l.233-263) both go through
+`_cache_inputs` → `__ensure_input_data_exists` (l.109-156), which sets `_last_accessed_index`
+to the entry holding `input_data` (existing or newly created); the group is then tested
+(`_has_group`) and written **at `_last_accessed_index`**.  Both methods are `@synchronized`,
+i.e. atomic with respect to each other; `__getitem__` does not touch `_last_accessed_index`.
+The hash → indices dictionary is a private index of "the entry whose inputs equal
+`input_data`" and is abstracted to a search by key. -/
+
+structure JEntry (κ ν γ : Type) where
+  key : κ
+  out : Option ν
+  jac : Option γ
+  deriving Repr, DecidableEq
+
+structure JCache (κ ν γ : Type) where
+  /-- Entry of index `i` (1-based, as `_max_index`) is `entries[i-1]`. -/
+  entries : List (JEntry κ ν γ)
+  /-- `_last_accessed_index` (0 = nothing accessed yet). -/
+  last : Nat
+  deriving Repr
+
+variable {γ : Type}
+
+def JCache.empty : JCache κ ν γ := { entries := [], last := 0 }
+
+/-- Position of the entry whose inputs equal `x`. -/
+def idxOfKey : List (JEntry κ ν γ) → κ → Option Nat
+  | [], _ => none
+  | e :: es, x => if e.key = x then some 0 else (idxOfKey es x).map (· + 1)
+
+/-- `_write_data(values, group, index)` seen as a modification of entry `index`. -/
+def modifyAt (f : JEntry κ ν γ → JEntry κ ν γ) : List (JEntry κ ν γ) → Nat → List (JEntry κ ν γ)
+  | [], _ => []
+  | e :: es, 0 => f e :: es
+  | e :: es, n + 1 => e :: modifyAt f es n
+
+/-- `__ensure_input_data_exists` followed by the write of the inputs of a new entry:
+    returns the cache and "the input data was missing". -/
+def jEnsure (c : JCache κ ν γ) (x : κ) : JCache κ ν γ × Bool :=
+  match idxOfKey c.entries x with
+  | some i => ({ c with last := i + 1 }, false)
+  | none => ({ entries := c.entries ++ [{ key := x, out := none, jac := none }],
+               last := c.entries.length + 1 }, true)
+
+/-- `_has_group(_last_accessed_index, group)`. -/
+def hasOut (c : JCache κ ν γ) : Bool :=
+  match c.entries[c.last - 1]? with
+  | some e => e.out.isSome
+  | none => false
+
+def hasJac (c : JCache κ ν γ) : Bool :=
+  match c.entries[c.last - 1]? with
+  | some e => e.jac.isSome
+  | none => false
+
+/-- `cache_outputs(input_data, output_data)`. -/
+def jCacheOutputs (c : JCache κ ν γ) (x : κ) (v : ν) : JCache κ ν γ :=
+  let r := jEnsure c x
+  if !r.2 && hasOut r.1 then r.1
+  else { r.1 with entries := modifyAt (fun e => { e with out := some v }) r.1.entries (r.1.last - 1) }
+
+/-- `cache_jacobian(input_data, jacobian_data)`. -/
+def jCacheJacobian (c : JCache κ ν γ) (x : κ) (j : γ) : JCache κ ν γ :=
+  let r := jEnsure c x
+  if !r.2 && hasJac r.1 then r.1
+  else { r.1 with entries := modifyAt (fun e => { e with jac := some j }) r.1.entries (r.1.last - 1) }
+
+/-- `cache[input_data]` (read only). -/
+def jLookup (es : List (JEntry κ ν γ)) (x : κ) : Option (JEntry κ ν γ) :=
+  es.find? (fun e => e.key = x)
+
+/-- The atomic writes workers perform on the shared cache: worker executing at `x` calls
+    `cache_outputs(x, f x)`, worker linearizing at `x` calls `cache_jacobian(x, g x)`. -/
+inductive COp (κ : Type) where
+  | out (x : κ)
+  | jac (x : κ)
+  deriving Repr, DecidableEq
+
+def COp.key : COp κ → κ
+  | .out x => x
+  | .jac x => x
+
+def jApply (f : κ → ν) (g : κ → γ) (c : JCache κ ν γ) : COp κ → JCache κ ν γ
+  | .out x => jCacheOutputs c x (f x)
+  | .jac x => jCacheJacobian c x (g x)
+
+/-- An interleaving of the workers' atomic cache writes. -/
+def jRun (f : κ → ν) (g : κ → γ) (c : JCache κ ν γ) : List (COp κ) → JCache κ ν γ
+  | [] => c
+  | op :: ops => jRun f g (jApply f g c op) ops
+
+/-- The variant that does **not** move `_last_accessed_index` when the input data is already
+    cached.  Only used for a counter-example in `Props/C13.lean`. -/
+def jEnsureNoTouch (c : JCache κ ν γ) (x : κ) : JCache κ ν γ × Bool :=
+  match idxOfKey c.entries x with
+  | some _ => (c, false)
+  | none => ({ entries := c.entries ++ [{ key := x, out := none, jac := none }],
+               last := c.entries.length + 1 }, true)
+
+def jCacheOutputsNoTouch (c : JCache κ ν γ) (x : κ) (v : ν) : JCache κ ν γ :=
+  let r := jEnsureNoTouch c x
+  if !r.2 && hasOut r.1 then r.1
+  else { r.1 with entries := modifyAt (fun e => { e with out := some v }) r.1.entries (r.1.last - 1) }
+
+def jCacheJacobianNoTouch (c : JCache κ ν γ) (x : κ) (j : γ) : JCache κ ν γ :=
+  let r := jEnsureNoTouch c x
+  if !r.2 && hasJac r.1 then r.1
+  else { r.1 with entries := modifyAt (fun e => { e with jac := some j }) r.1.entries (r.1.last - 1) }
+
 end GV.C13
